@@ -33,10 +33,12 @@ StepRes(ev) ==
     LET s == ev.s
     IN CASE s.op = "flat" -> InitFlat(heap, vars, s.v, ev.n)
          [] s.op = "nested" -> InitNested(heap, vars, s.v, ev.n, ev.r)
+         [] s.op = "nestedd" -> InitNestedDistinct(heap, vars, s.v, ev.n, ev.r)
          [] s.op = "alias" -> Alias(heap, vars, s.v, s.w)
          [] s.op = "set" -> SetIndex(heap, vars, s.v)
          [] s.op = "set2" -> SetIndex2(heap, vars, s.v, s.i)
          [] s.op = "opassign" -> OpAssign(heap, vars, s.v)
+         [] s.op = "opassign2" -> OpAssign2(heap, vars, s.v, s.i)
          [] s.op = "pop" -> Pop(heap, vars, s.v)
 
 Next == /\ l <= Len(Rec)
